@@ -187,15 +187,36 @@ def partition(repo: Repo) -> RuleRun:
         cls = repo.cls(clsname)
         core, shell = repo.func(f"{clsname}.core"), repo.func(f"{clsname}.shell")
         for ncore in (1, 2, 4):
-            this = Obj("shape", cls=cls)
-            ops = [Sym(f"op{i}") for i in range(ncore + 5)]
-            this.set("lofts", [ops[:ncore], ops[ncore:]])
-            sk = Obj("sketch")
-            sk.set("core", [Sym(f"f{i}") for i in range(ncore)])
-            this.set("sketch_1", sk)
-            c = _run(Evaluator(repo=repo, module=core.module), core, [this])
-            s = _run(Evaluator(repo=repo, module=shell.module), shell, [this])
-            r.check(c == ops[:ncore] and s == ops[ncore:], cls, f"{ncore} core ops: core/shell split at len(sketch_1.core)", f"RoundSolidShape with {ncore} core faces: core={c}, shell={s}; expected the first {ncore} operations and the rest", core.node, key=f"round:{ncore}")
+            for mirrored in (False, True):
+                # operations are objects whose end faces are the faces of the two sketches; a mirrored (inverted) shape has them swapped
+                this = Obj("shape", cls=cls)
+                n_ops = ncore + 5
+                f1 = [Obj(f"start-face{i}") for i in range(n_ops)]
+                f2 = [Obj(f"end-face{i}") for i in range(n_ops)]
+                ops = [Obj(f"op{i}", bottom_face=(f2[i] if mirrored else f1[i]), top_face=(f1[i] if mirrored else f2[i])) for i in range(n_ops)]
+                this.set("lofts", [ops[:ncore], ops[ncore:]])
+                sk = Obj("sketch")
+                sk.set("core", f1[:ncore])
+                sk.set("shell", f1[ncore:])
+                sk.set("faces", list(f1))
+                this.set("sketch_1", sk)
+                sk2 = Obj("sketch_2")
+                sk2.set("core", f2[:ncore])
+                sk2.set("shell", f2[ncore:])
+                sk2.set("faces", list(f2))
+                this.set("sketch_2", sk2)
+                c = _run(Evaluator(repo=repo, module=core.module), core, [this])
+                s = _run(Evaluator(repo=repo, module=shell.module), shell, [this])
+                label = f"{ncore} core ops{', mirrored (end faces swapped)' if mirrored else ''}"
+                r.check(
+                    c == ops[:ncore] and s == ops[ncore:],
+                    cls,
+                    f"{label}: core/shell = first {ncore} operations / the rest",
+                    f"RoundSolidShape with {label}: core={c}, shell={s}; expected the first {ncore} operations and the rest - for a mirrored shape the inner blocks are reported as shell (and a pipe wall "
+                    "obtained by deleting the core keeps its core)",
+                    core.node,
+                    key=f"round:{ncore}{':mirrored' if mirrored else ''}",
+                )
     hollow = repo.cls("construct.shapes.round.RoundHollowShape")
     sh = repo.func("construct.shapes.round.RoundHollowShape.shell")
     this = Obj("shape", cls=hollow)
@@ -401,4 +422,25 @@ def scalar_amount(repo: Repo) -> RuleRun:
 scalar_amount.rule_id = "C19.SCALAR-AMOUNT"
 
 
-RULES = [grid_roles, slice_roles, partition, merged_roles, assemble_walk, backport_local, delete_survives, tier_order, no_class_state, addressable, scalar_amount]
+def stack_chain(repo: Repo) -> RuleRun:
+    """'grid[k][j][i] is the operation in column i, row j, tier k': tier k of a transformed stack is the base moved k times by the WHOLE transformation list. Same rule as C11.STACK-CHAIN."""
+    from ..report import rebrand
+    from . import c11
+
+    return rebrand(c11.stack_chain(repo), PROP, "C19.STACK-CHAIN")
+
+
+stack_chain.rule_id = "C19.STACK-CHAIN"
+
+
+def arguments_untouched(repo: Repo) -> RuleRun:
+    """'tier k = the base moved k times': the amount a stack is built with is the caller's - a second stack built with the same array gets the same tiers. Same rule as C09.ARGUMENTS-UNTOUCHED."""
+    from ..alias import argument_mutation_rule
+
+    return argument_mutation_rule(repo, PROP, "C19.ARGUMENTS-UNTOUCHED")
+
+
+arguments_untouched.rule_id = "C19.ARGUMENTS-UNTOUCHED"
+
+
+RULES = [grid_roles, slice_roles, partition, merged_roles, assemble_walk, backport_local, delete_survives, tier_order, no_class_state, addressable, scalar_amount, stack_chain, arguments_untouched]
